@@ -49,7 +49,7 @@ def run(cx):
     # ---- G: enumerate histories
     maxlen = 3
     hists = []
-    for fam, ml in (("base", maxlen), ("import", maxlen), ("risorcall", maxlen)):
+    for fam, ml in (("base", maxlen), ("import", maxlen), ("risorcall", maxlen), ("defer", maxlen)):
         cfg = "CONSTANTS MaxLen = %d\n MaxLate = %d\n Family = \"%s\"\nINIT Init\nNEXT Next\nINVARIANT Emit\nCHECK_DEADLOCK FALSE\n" % (
             ml, 0 if fam == "risorcall" else (1 if cx.quick() else 2), fam)
         rh = cx.tlc("VMRunHist", cfg_text=cfg, workers=4, name="hist_gen_" + fam, timeout=1800, heap="6g")
